@@ -1,6 +1,8 @@
 #!/bin/bash
 # usage: seedtest.sh <patch.diff> <tier> <prop> [<prop>...]   -- applies a seeded change to /repo, runs checks, reverts
 PATCH="$(readlink -f "$1")"; TIER="$2"; shift 2
+mkdir -p /tmp/seedtest-verif/evidence /tmp/seedtest-verif/replays
+for L in fixture_embed fixture_embed2 known_findings.json regress; do [ -e /tmp/seedtest-verif/$L ] || ln -s /verif/$L /tmp/seedtest-verif/$L; done
 cd /repo || exit 2
 if ! git diff --quiet; then echo "repo dirty, refusing"; exit 2; fi
 git apply "$PATCH" || { echo "patch does not apply"; exit 2; }
